@@ -15,6 +15,14 @@ def opt (r : Option Bytes) : String :=
   | some b => "ok " ++ hex b
   | none => "err"
 
+/-- per-read results of a sequence of reads on one reader; a failing read ends the sequence -/
+def readsOut (E : Bytes → Bytes) : AesHkdf → List Nat → List String
+  | _, [] => []
+  | s, n :: ns =>
+    match s.read E n with
+    | none => ["err"]
+    | some (b, s') => hex b :: readsOut E s' ns
+
 def isHmac (alg : Int) : Bool := hmacKeySize alg != 0
 def isAesmac (alg : Int) : Bool := aesmacKeySize alg != 0
 def isCcm (alg : Int) : Bool := ccmKeySize alg != 0
@@ -74,9 +82,7 @@ def dispatch (op : String) (args : List String) : Option String :=
       | some s, some i, some ns =>
         (match aesE s with
          | some E =>
-           (match AesHkdf.reads E (AesHkdf.init i) ns with
-            | some bs => "ok " ++ String.intercalate "," (bs.map hex)
-            | none => "err")
+           "ok " ++ String.intercalate "," (readsOut E (AesHkdf.init i) ns)
          | none => "err")
       | _, _, _ => "bad-op")
   | _, _ => none
